@@ -1138,6 +1138,9 @@ fn through_local(c: &mut Ctx, tz: &str, z: &Zc) {
     };
     pick(&at, 'u', c);
     pick(&loc, 'l', c);
+    // the result contract: `Local.from_local_datetime(l).earliest()` / `.latest()`
+    pick(&loc, 'e', c);
+    pick(&loc, 'L', c);
     let old = std::env::var("TZ").ok();
     std::env::set_var("TZ", tz);
     let qs2 = qs.clone();
@@ -1203,6 +1206,18 @@ fn through_local(c: &mut Ctx, tz: &str, z: &Zc) {
                 let nd = naive(x).unwrap();
                 if q.starts_with('u') {
                     gs(|| Local.offset_from_utc_datetime(&nd), |o| format!("s{}", o.local_minus_utc()))
+                } else if q.starts_with('e') || q.starts_with('L') {
+                    let first = q.starts_with('e');
+                    gs(
+                        || {
+                            let m = Local.from_local_datetime(&nd);
+                            if first { m.earliest() } else { m.latest() }
+                        },
+                        |d| match d {
+                            None => "n".into(),
+                            Some(d) => format!("{}/{}", d.timestamp(), d.offset().local_minus_utc()),
+                        },
+                    )
                 } else {
                     gs(
                         || Local.offset_from_local_datetime(&nd),
@@ -1280,7 +1295,7 @@ pub fn run(c: &mut Ctx) {
                 }
                 c.sample(&format!("system zone {} ({} transitions, well separated: {})", rel, zc.pz.trans.len(), zc.sep));
                 run_zone(c, &zc);
-                if class == "sys" && glue.len() < c.n(8, 40) {
+                if class == "sys" && glue.len() < c.n(16, 60) {
                     glue.push((format!(":{p}"), p.clone()));
                 }
             }
@@ -1306,6 +1321,8 @@ pub fn run(c: &mut Ctx) {
     }
     // ---- B. synthetic TZif files from random zone models
     let nsyn = c.n(300, 2000);
+    let (mut syn_glue_big, mut syn_glue_small) = (0usize, 0usize);
+    let mut syn_files: Vec<String> = vec![];
     let mut made = 0;
     let mut tries = 0;
     while made < nsyn && tries < nsyn * 4 {
@@ -1340,6 +1357,19 @@ pub fn run(c: &mut Ctx) {
                     c.sample(&format!("synthetic zone {} -> {}", zc.label, short(&zc.dump)));
                 }
                 run_zone(c, &zc);
+                // a few of them also through `Local` (TZ=:<file>): half of them zones with an offset that
+                // `FixedOffset` cannot hold (the glue drops such answers: `Props.C05.cache_local_drops`)
+                let big = zc.pz.types.iter().any(|t| t.off.abs() >= 86400);
+                let quota = c.n(6, 24);
+                if zc.pz.leaps == 0 && ((big && syn_glue_big < quota) || (!big && syn_glue_small < quota)) {
+                    let path = std::env::temp_dir().join(format!("c05-{}-{}.tzif", std::process::id(), syn_files.len()));
+                    if std::fs::write(&path, &bytes).is_ok() {
+                        if big { syn_glue_big += 1 } else { syn_glue_small += 1 }
+                        let p = path.to_string_lossy().into_owned();
+                        glue.push((format!(":{p}"), p.clone()));
+                        syn_files.push(p);
+                    }
+                }
             }
             Ok(Err(e)) => {
                 c.count(&format!("syn.rejected.{}", e.split('(').next().unwrap_or("?")));
@@ -1367,7 +1397,7 @@ pub fn run(c: &mut Ctx) {
                     c.sample(&format!("POSIX rule {} -> {}", rule, zc.dump));
                 }
                 run_zone(c, &zc);
-                if i < c.n(4, 12) {
+                if i < c.n(8, 24) {
                     glue.push((rule.clone(), String::new()));
                 }
             }
@@ -1386,5 +1416,8 @@ pub fn run(c: &mut Ctx) {
             let zc = mk("glue", tz.clone(), z);
             through_local(c, &tz, &zc);
         }
+    }
+    for p in syn_files {
+        let _ = std::fs::remove_file(p);
     }
 }
